@@ -77,7 +77,9 @@ def install(E):
             if not cy: raise EngineError('shift by symbolic amount')
             if y < 0 or y >= w: raise s.fail(st, 'ub', 'shift amount out of range')
             k = 1 << y
-            return s.wrap(st, SV(zt(x) * k, xl * k, xh * k, taint=tn), w)
+            r = s.wrap(st, SV(zt(x) * k, xl * k, xh * k, taint=tn), w)
+            if isinstance(r, SV): r.al = y
+            return r
         if op in ('lshr', 'ashr'):
             if not cy: raise EngineError('shift by symbolic amount')
             if y < 0 or y >= w: raise s.fail(st, 'ub', 'shift amount out of range')
@@ -86,6 +88,9 @@ def install(E):
                 ux = s.tounsigned(x, w)
                 return s.fromunsigned(SV(ux.t / k, ux.lo // k, ux.hi // k, taint=tn), w)
             return SV(zt(x) / k, xl // k, xh // k, taint=tn)   # z3 int division by positive constant is floor
+        if op in ('sdiv', 'srem', 'udiv', 'urem') and not cy and yh - yl <= 16:
+            y = s.concretize(st, y); cy = True; yl = yh = y      # small-range divisor: case split (keeps the arithmetic linear)
+            if cx: return binop(s, st, op, x, y, w, flags)
         if op in ('sdiv', 'srem'):
             if (yl <= 0 <= yh):
                 s.check_vc(st, zt(y) == 0, 'ub', 'division by zero')
@@ -134,6 +139,15 @@ def install(E):
                         vl, vh = ival(v)
                         return SV((zt(v) / kk) * kk, (vl // kk) * kk, vh, taint=tn)
             if op == 'or' or op == 'xor':
+                # disjoint bit ranges (struct fields packed into one integer): low part in [0, 2^k), high part a multiple of 2^k
+                for lo_, hi_ in ((x, y), (y, x)):
+                    ll, lh = ival(lo_)
+                    if ll >= 0:
+                        k = lh.bit_length()
+                        hal = (hi_.al if isinstance(hi_, SV) else ((hi_ & -hi_).bit_length() - 1 if hi_ != 0 else 64))
+                        if hal >= k:
+                            hl, hh = ival(hi_)
+                            return s.wrap(st, SV(zt(lo_) + zt(hi_), ll + hl, lh + hh, taint=tn), w)
                 c, v = (y, x) if cy else ((x, y) if cx else (None, None))
                 if c == 0: return v
                 if op == 'xor' and c == -1:
